@@ -505,6 +505,13 @@ def mon_c02(ctx, ex):
     if ex.faults or ex.planspec[0] != "none":
         return True
     fam = base_family(ex.family)
+    pre_probs = M.invariant(ex.pre)
+    if pre_probs:
+        # earlier calls of this history (possibly one aborted by a raising hook) left something that is not a forest:
+        # no later call can have its specified effect on it
+        ctx.violation("C02/effect/%s/on-inconsistent-state-left-by-earlier-call" % ex.call[0], "model-effect", ex.case(), expected="a consistent forest before the call",
+                      observed={"pre": _jsonable(ex.pre), "problems": pre_probs[:4]})
+        return False
     exp_out, exp_ch, _ = M.model_call(M.ch_of(ex.pre), ex.call, fam)
     if exp_out == "unspecified":
         return True
